@@ -29,6 +29,16 @@ func (s step) xs() string {
 	}
 	return strings.Trim(string(s.X), `"`)
 }
+func (s step) xo() (o string, sub int) {
+	var v struct {
+		O   string `json:"o"`
+		Sub int    `json:"sub"`
+	}
+	if json.Unmarshal(s.X, &v) == nil && v.O != "" {
+		return v.O, v.Sub
+	}
+	return s.xs(), 0
+}
 func (s step) xi() int {
 	var v int
 	json.Unmarshal(s.X, &v)
@@ -155,7 +165,8 @@ func runReplay(b behaviour) caseResult {
 			case "PubStart":
 				want = "pub.send"
 			case "PubResult":
-				want = map[string]string{"data": "pub.lock", "keepalive": "pub.lock", "fault": "a.err"}[s.xs()]
+				o, _ := s.xo()
+				want = map[string]string{"data": "pub.lock", "keepalive": "pub.lock", "fault": "a.err"}[o]
 			case "PubLock":
 				want = "pub.locked"
 			case "Err":
@@ -169,7 +180,7 @@ func runReplay(b behaviour) caseResult {
 			if want == "done" {
 				return ""
 			}
-			if s.A == "PubResult" && s.xs() == "data" {
+			if o, _ := s.xo(); s.A == "PubResult" && o == "data" {
 				// the environment owes a response: change the value until it arrives
 				go func() {
 					for k := 0; k < 400; k++ {
@@ -188,12 +199,29 @@ func runReplay(b behaviour) caseResult {
 			if s.A != "PubStart" {
 				pubOutcome = ""
 			}
-			p, ok := e.ctl.waitPark("loop", since, nil, wait)
+			var p *park
+			var ok bool
+			if s.A == "PubStart" || s.A == "PubLock" {
+				// these segments only take subMux (no network): blocked = blocked on the lock
+				if b := e.waitOrBlocked("loop", since, nil, "monitorSubscriptions"); b != "" {
+					return fmt.Sprintf("BLOCKED step %d loop %s: %s", i, s.A, b)
+				}
+				p, ok = e.ctl.waitPark("loop", since, nil, time.Second)
+			} else {
+				p, ok = e.ctl.waitPark("loop", since, nil, wait)
+			}
 			if !ok {
 				return fmt.Sprintf("step %d loop %s/%s: no arrival at %s within %v", i, s.A, s.xs(), want, wait)
 			}
 			if got := armOf(p); got != want {
 				return fmt.Sprintf("step %d loop %s: arrived at %s, model says %s", i, s.A, got, want)
+			}
+			if _, msub := s.xo(); s.A == "PubResult" && want == "pub.lock" && msub != 0 {
+				if h := e.handle(msub); h != nil {
+					if got, _ := p.kv["sub"].(uint32); got != h.SubscriptionID {
+						return fmt.Sprintf("step %d loop PubResult: response of server subscription %d, model says %d (model id %d)", i, got, h.SubscriptionID, msub)
+					}
+				}
 			}
 			return ""
 		case s.P == "mon":
@@ -218,7 +246,11 @@ func runReplay(b behaviour) caseResult {
 					if err != nil {
 						callErr.Store(fmt.Sprintf("%s#%d subscribe", s.P, mid), err.Error())
 					}
-					e.ctl.note(s.P, "return", map[string]any{"api": "subscribe", "id": mid, "err": fmt.Sprint(err)})
+					sid := uint32(0)
+					if h := e.handle(mid); h != nil {
+						sid = h.SubscriptionID
+					}
+					e.ctl.note(s.P, "return", map[string]any{"api": "subscribe", "id": mid, "sid": sid, "err": fmt.Sprint(err)})
 				})
 			case "CancelCall":
 				mid := s.xi()
@@ -237,15 +269,18 @@ func runReplay(b behaviour) caseResult {
 				}
 			}
 			want := appPark[s.A]
+			if s.A != "SubCall" && s.A != "SubReg" && s.A != "FgUnlock" && s.A != "FgDelete" {
+				// segments without a round trip: blocked = blocked on a channel / the lock
+				if b := e.waitOrBlocked(s.P, since, w.idle, "harness"); b != "" {
+					return fmt.Sprintf("BLOCKED step %d %s %s: %s", i, s.P, s.A, b)
+				}
+			}
 			p, ok := e.ctl.waitPark(s.P, since, w.idle, stepTimeout)
 			if !ok {
-				// the specification says this step is enabled, the real goroutine is blocked on a channel / lock
-				var bs []string
-				for _, g := range clientGoroutines() {
-					bs = append(bs, brief(g))
+				if b := e.waitOrBlocked(s.P, since, w.idle, "harness"); b != "" {
+					return fmt.Sprintf("BLOCKED step %d %s %s: %s", i, s.P, s.A, b)
 				}
-				return fmt.Sprintf("BLOCKED step %d %s %s: neither parked nor returned within %v although the specification allows the step; client goroutines: %s",
-					i, s.P, s.A, stepTimeout, strings.Join(bs, " || "))
+				return fmt.Sprintf("step %d %s %s: neither parked nor returned within %v", i, s.P, s.A, stepTimeout)
 			}
 			got := ""
 			if p != nil {
@@ -287,8 +322,24 @@ func runReplay(b behaviour) caseResult {
 		}
 		return true
 	}
+	// Early decision: an application goroutine blocked on a channel / lock while the publish loop is
+	// blocked on a lock / channel too (two dumps 700 ms apart) cannot be released by anything.
+	confirmed := 0
 	for !allIdle() && time.Now().Before(dl) {
 		time.Sleep(5 * time.Millisecond)
+		if time.Since(dl.Add(-limit)) > time.Duration(confirmed+1)*700*time.Millisecond {
+			gs := clientGoroutines()
+			if blockedOnSync(gs, "cmd/clientconn") && blockedOnSync(gs, ").monitorSubscriptions(") {
+				confirmed++
+				if confirmed >= 2 {
+					break
+				}
+			} else {
+				confirmed = 0
+				dl2 := time.Since(dl.Add(-limit))
+				_ = dl2
+			}
+		}
 	}
 	obs := map[string]any{"steps": len(b.Steps), "replayed": done, "drift": drift, "model_stuck": b.Stuck, "model_lostresume": b.LostResume}
 	res := caseResult{Status: "ok", Obs: obs}
@@ -330,12 +381,21 @@ func runReplay(b behaviour) caseResult {
 			progressed := false
 			// slack: publish time-out (a stale request may have to expire first) + 8 s
 			pdl := time.Now().Add(requestTimeout + 8*time.Second)
+			t0 := time.Now()
 			for time.Now().Before(pdl) {
 				e.srv.do("set")
 				time.Sleep(100 * time.Millisecond)
 				if atomic.LoadInt64(&e.notifs) > n0 {
 					progressed = true
 					break
+				}
+				// nothing can wake a loop that waits in its paused select with empty signal channels
+				if time.Since(t0) > 1500*time.Millisecond && allIdle() && e.loopParkedForGood() {
+					time.Sleep(300 * time.Millisecond)
+					if e.loopParkedForGood() && atomic.LoadInt64(&e.notifs) == n0 {
+						obs["decided_early"] = true
+						break
+					}
 				}
 			}
 			obs["progress"] = progressed
@@ -410,4 +470,34 @@ func scriptShape(b behaviour) string {
 		end = "lostresume"
 	}
 	return strings.Join(parts, " ") + " -> " + end + "/" + b.Lpc
+}
+
+// waitOrBlocked waits until the role parks / finishes; returns a description when the goroutine
+// is seen blocked on a mutex or channel in two dumps (it then cannot reach its next hook).
+func (e *env) waitOrBlocked(role string, since int, done func() bool, fn string) string {
+	seen := 0
+	t0 := time.Now()
+	for time.Since(t0) < stepTimeout {
+		if _, ok := e.ctl.waitPark(role, since, done, 600*time.Millisecond); ok {
+			return ""
+		}
+		gs := clientGoroutines()
+		pat := ").monitorSubscriptions("
+		if role != "loop" {
+			pat = "cmd/clientconn"
+		}
+		if blockedOnSync(gs, pat) {
+			seen++
+			if seen >= 3 {
+				var bs []string
+				for _, g := range gs {
+					bs = append(bs, brief(g))
+				}
+				return fmt.Sprintf("the goroutine is blocked on a lock / channel although the specification allows the step; client goroutines: %s", strings.Join(bs, " || "))
+			}
+		} else {
+			seen = 0
+		}
+	}
+	return ""
 }
